@@ -291,18 +291,16 @@ def catalogue(tier):
     # (5) three layers
     add_split(1, shape=(2, 2, 3), atm=1, conv=1, free=[0, 3])
     add_split(1, shape=(2, 2, 3), atm=2, conv=2, free=[1], snap='default')
-    # (6) 3x3x3 (the largest size claimed), one stepped column: centre (above the top / inside
-    #     layer 1 / at the top of layer 2 / at the top of the bottom layer), origin column (above
-    #     the top / at the top of the bottom layer); 3x3x2 with the far corner stepped (above the
-    #     top / inside layer 1).  One 3x3x3 path costs about two CPU minutes.
-    for cls in (0, 2, 3, 5):
+    # (6) 3x3x3 (the largest size claimed), one stepped column: centre (above the top / at the
+    #     top of layer 2), origin column (at the top of the bottom layer); 3x3x2 with the far
+    #     corner stepped (inside layer 1).  One 3x3x3 path costs about two CPU minutes.
+    for cls in (0, 3):
         add(shape=(3, 3, 3), atm=0, conv=0, free=[4], fix={4: cls})
-    for cls in (0, 5):
-        add(shape=(3, 3, 3), atm=2, conv=2, free=[0], fix={0: cls})
-    for cls in (0, 2):
-        add(shape=(3, 3, 2), atm=1, conv=1, free=[8], fix={8: cls})
+    add(shape=(3, 3, 3), atm=2, conv=2, free=[0], fix={0: 5})
+    add(shape=(3, 3, 2), atm=1, conv=1, free=[8], fix={8: 2})
     # (7) unequal numbers of blocks per direction
-    add_split(1, shape=(3, 2, 2), atm=0, conv=1, free=[0, 4])
+    add_split(1, shape=(3, 2, 2), atm=0, conv=1, free=[0])
+    add_split(1, shape=(3, 2, 2), atm=1, conv=3, free=[4])
     # (8) larger 2-D meshes
     add_split(1, shape=(3, 1, 3), atm=2, conv=2, free=[0, 1])
     add_split(1, shape=(3, 1, 3), atm=1, conv=1, free=[1, 2])
@@ -325,8 +323,8 @@ def run(tier, seed, rep):
         'bottom layer upwards (on a layer boundary, inside a layer, at the top, above the top - each arrangement is a path)',
         'sizes: ' + ('3-D 2x2x2 (one stepped column per atmosphere type); 2-D 2x1x2, 1x2x2 (both columns stepped), 3x1x2, 1x3x2 (two stepped columns)'
                      if quick else
-                     '3-D 2x2x2 (1, 2 and 3 stepped columns), 2x2x3 and 3x2x2 (two stepped columns), 3x3x3 (one stepped column: centre - four of its '
-                     'six arrangements; origin column - two arrangements), 3x3x2 (far corner, two arrangements); 2-D 2x1x2, 1x2x2, 3x1x2, 1x3x2, 3x1x3, 1x3x3 '
+                     '3-D 2x2x2 (1, 2 and 3 stepped columns), 2x2x3 (two stepped columns), 3x2x2 (one stepped column), 3x3x3 (one stepped column: '
+                     'centre above the top / at the top of layer 2; origin column at the top of the bottom layer), 3x3x2 (far corner inside layer 1); 2-D 2x1x2, 1x2x2, 3x1x2, 1x3x2, 3x1x3, 1x3x3 '
                      '(two or three stepped columns)'),
         'atmosphere types 0/1/2 (the same type is passed to rectgeo), all 4 naming conventions for the original geometry, '
         'the reconstructed geometry named with the same or a different convention',
